@@ -90,6 +90,45 @@ def grammar(rng):
     return b'\xff' * 16 + struct.pack('>HB', total if rng.chance(9, 10) else rng.choice([0, 19, total - 1, total + 1]), 2) + body
 
 
+def flow_adversarial(rng):
+    """an accepted UPDATE whose MP_(UN)REACH carries IPv4 / IPv6 FlowSpec NLRI with component-level edge cases: prefix components
+    (types 1, 2) of every prefix length class incl. lengths that need more octets than the address has, operator / value
+    components with and without end-of-list bits, unknown component types, truncated components"""
+    def comp():
+        t = rng.choice([1, 2, 1, 2, 3, 4, 5, 6, 7, 8, 9, 10, 11, 12, 13, 0, 14, 255])
+        if t in (1, 2):
+            plen = rng.choice([0, 1, 7, 8, 24, 31, 32, 33, 36, 40, 41, 48, 64, 128, 129, 255])
+            have = rng.choice([(plen + 7) // 8, (plen + 7) // 8, 0, 3, 4, 5, 6])
+            return bytes([t, plen]) + bytes(rng.below(256) for _ in range(have))
+        n = rng.below(4)
+        out = bytes([t])
+        for i in range(n + 1):
+            op = rng.choice([0x01, 0x81, 0x11, 0x91, 0x21, 0xa1, 0x31, 0xb1, rng.below(256)])
+            if i == n and rng.chance(3, 4):
+                op |= 0x80
+            out += bytes([op]) + bytes(rng.below(256) for _ in range(1 << ((op >> 4) & 3)))
+        return out
+    def nlri():
+        body = b''.join(comp() for _ in range(1 + rng.below(3)))
+        if rng.chance(1, 8):
+            body = body[:rng.below(len(body) + 1)]
+        ln = len(body)
+        if ln < 240 and rng.chance(5, 6):
+            return bytes([ln]) + body
+        return bytes([0xf0 | (ln >> 8), ln & 0xff]) + body
+    afi = rng.choice([1, 1, 1, 2])
+    nl = b''.join(nlri() for _ in range(1 + rng.below(3)))
+    if rng.chance(1, 2):
+        v = struct.pack('>HBB', afi, 133, 0) + b'\x00' + nl
+        attr = bytes([0x90, 14]) + struct.pack('>H', len(v)) + v
+    else:
+        v = struct.pack('>HB', afi, 133) + nl
+        attr = bytes([0x90, 15]) + struct.pack('>H', len(v)) + v
+    attrs = bytes([0x40, 1, 1, 0, 0x40, 2, 0]) + attr
+    body = struct.pack('>H', 0) + struct.pack('>H', len(attrs)) + attrs
+    return b'\xff' * 16 + struct.pack('>HB', 19 + len(body), 2) + body
+
+
 def gen(ctx):
     rng = core.SplitMix(ctx.seed + 1000)
     out = []
@@ -107,6 +146,9 @@ def gen(ctx):
         elif mode < 9:
             msg = grammar(rng)
             kind = 'grammar'
+        elif rng.chance(1, 2):
+            msg = flow_adversarial(rng)
+            kind = 'flowspec'
         else:
             ln = rng.choice([0, 1, 18, 19, 22, 23, 30, 100, 4096, 5000])
             msg = bytes(rng.below(256) for _ in range(ln))
